@@ -862,6 +862,11 @@ package gmars
 //@     decreases [C10] breader.left
 // nothing is skipped silently: a line with fields either appends one instruction, is an 'org' directive, or ends the loop / fails
 //@     iteration [C10] len(fields) == 0 || (len(data.Code) == iter(len(data.Code)) + 1 && data.Start == iter(data.Start)) || (len(fields) == 2 && fields[0] == "org" && len(data.Code) == iter(len(data.Code)))
+//@     iteration [C09] len(fields) == 5 ==> data.Code[iter(len(data.Code))].Op == op && data.Code[iter(len(data.Code))].OpMode == opmode
+//@        && data.Code[iter(len(data.Code))].AMode == amode && data.Code[iter(len(data.Code))].A == aval
+//@        && data.Code[iter(len(data.Code))].BMode == bmode && data.Code[iter(len(data.Code))].B == bval
+//@        && (forall k :: 0 <= k && k < iter(len(data.Code)) ==> data.Code[k] == iter(data.Code[k]))
+//@     iteration [C09] len(fields) == 2 ==> data.Start == atoi(fields[1])
 //@     exit [C10] len(fields) == 1 && fields[0] == "end"
 // leaving on a reader error: no data may be pending (a last line without a final newline is not dropped)
 //@     exit header [C10][C09] len(raw_line) == 0
@@ -878,6 +883,11 @@ package gmars
 //@     invariant [C10] data.Start >= 0
 //@     decreases [C10] breader.left
 //@     iteration [C10] len(fields) == 0 || (len(data.Code) == iter(len(data.Code)) + 1 && data.Start == iter(data.Start)) || (len(fields) == 2 && fields[0] == "org" && len(data.Code) == iter(len(data.Code)))
+//@     iteration [C09] len(fields) == 5 ==> data.Code[iter(len(data.Code))].Op == op && data.Code[iter(len(data.Code))].OpMode == opmode
+//@        && data.Code[iter(len(data.Code))].AMode == amode && data.Code[iter(len(data.Code))].A == aval
+//@        && data.Code[iter(len(data.Code))].BMode == bmode && data.Code[iter(len(data.Code))].B == bval
+//@        && (forall k :: 0 <= k && k < iter(len(data.Code)) ==> data.Code[k] == iter(data.Code[k]))
+//@     iteration [C09] len(fields) == 2 ==> data.Start == atoi(fields[1])
 //@     exit [C10] fields[0] == "end"
 //@     exit header [C10][C09] len(raw_line) == 0
 
